@@ -151,4 +151,16 @@ def matmulDiaDenseJ (j : Json) : Except String Json := do
   pure <| Json.mkObj [("data", Json.arr ((List.range (out.rows * out.cols)).map fun p => ciJ (out.data p)).toArray),
     ("abs", absJ out.rows out.cols out.abs), ("fortran", out.fortran)]
 
+def matmulDenseDiaJ (j : Json) : Except String Json := do
+  let a ← denseBufOf j "a"
+  let b ← diaOf j "b"
+  let s ← ciOf (← j.getObjVal? "scale")
+  let o : Option (Dense CI) ← (match j.getObjVal? "out" with
+    | .ok (.null) => pure none
+    | .ok _ => do pure (some (← denseBufOf j "out"))
+    | .error _ => pure none)
+  let out := matmulDenseDia a b s o
+  pure <| Json.mkObj [("data", Json.arr ((List.range (out.rows * out.cols)).map fun p => ciJ (out.data p)).toArray),
+    ("abs", absJ out.rows out.cols out.abs), ("fortran", out.fortran)]
+
 end Qv.Drv.C01
